@@ -103,7 +103,7 @@ Print Assumptions C05_fcb_out_of_range_rejected.
 (* (c-line) a single FCB / FDB literal from the SOURCE LINE: a statement line in any layout whose operand field is a
    decimal or $hex literal in ANY spelling (leading zeros, either letter case of hex digits - lit_ok) that fits the
    directive's width is ACCEPTED, is left as parsed by symbol resolution whatever the table holds, and emits exactly the positional value of the digits, one byte / two bytes high
-   byte first (lit_value l <= 65535 holds for every lit_ok literal the assembler reads; it is kept as a hypothesis) *)
+   byte first (every lit_ok literal is a 16-bit quantity: PC01acc.lit_value_16bit, so FDB needs no range hypothesis) *)
 Theorem C05_fcb_literal_line_emits_its_value :
   forall f l,
     well_formed_fields f -> upper_t (lf_mn f) = FCB_t -> lf_ops f = lit_text l -> lit_ok l -> lit_value l <= 255 ->
@@ -117,7 +117,7 @@ Print Assumptions C05_fcb_literal_line_emits_its_value.
 
 Theorem C05_fdb_literal_line_emits_its_value :
   forall f l,
-    well_formed_fields f -> upper_t (lf_mn f) = FDB_t -> lf_ops f = lit_text l -> lit_ok l -> lit_value l <= 65535 ->
+    well_formed_fields f -> upper_t (lf_mn f) = FDB_t -> lf_ops f = lit_text l -> lit_ok l ->
     exists st p, parse_line (line_of f) = Ok (Some st) /\ s_label st = lf_label f /\
       (forall tb, resolve_operand (s_operand st) (s_instr st) tb = Ok (s_operand st)) /\
       translate_operand (s_operand st) (s_instr st) = Ok p /\
